@@ -113,6 +113,19 @@ void operator delete[](void* p) noexcept { free(p); }
 void operator delete(void* p, std::size_t) noexcept { free(p); }
 void operator delete[](void* p, std::size_t) noexcept { free(p); }
 #endif
+#undef __builtin_abs
+#undef __builtin_labs
+#undef __builtin_llabs
+#include <climits>
+extern "C" {
+  int vf_checked_abs(int x) { if (x == INT_MIN) { printf("VF-ASSERT-FAIL: UB: abs of INT_MIN\n"); finish("VF-FAIL", 1); } return x < 0 ? -x : x; }
+  long vf_checked_labs(long x) { if (x == LONG_MIN) { printf("VF-ASSERT-FAIL: UB: labs of LONG_MIN\n"); finish("VF-FAIL", 1); } return x < 0 ? -x : x; }
+  // with -fno-builtin-abs the C library functions are called as such: these definitions take precedence over libc's
+  int abs(int x) noexcept { return vf_checked_abs(x); }
+  long labs(long x) noexcept { return vf_checked_labs(x); }
+  long long llabs(long long x) noexcept { return vf_checked_llabs(x); }
+  long long vf_checked_llabs(long long x) { if (x == LLONG_MIN) { printf("VF-ASSERT-FAIL: UB: llabs of LLONG_MIN\n"); finish("VF-FAIL", 1); } return x < 0 ? -x : x; }
+}
 extern "C" void VF_ENTRY(void);
 #ifndef VF_MAX_ALLOC
 static bool g_armed;
